@@ -975,6 +975,15 @@ def handler_run(pid, extra=None):
         info = None
         if extra:
             info = extra(ctx)
+        if pid == "C16":
+            dr = robust(lambda _sd: V.double_register_probe(), "double register probe")(0)
+            ctx.coverage["double_register_probe"] = dr
+            if dr["bad"]:
+                b0 = dr["bad"][0]
+                ctx.violation(f"`h` was registered twice in quick succession (tail mode; second registration {b0['second']} replaces {b0['first']}): one "
+                              f"trigger was answered by {b0['answers']} and the instances announced as unregistered are {b0['unregistered']} - exactly one "
+                              f"active instance per (context, name), the replaced one announced ({len(dr['bad'])} of {dr['trials']} trials)",
+                              dict(engine="V", probe="double_register_probe", result=dr))
         if pid == "C14":
             lp = robust(lambda _sd: V.handler_lag_probe(), "handler lag probe")(0)
             ctx.coverage["lag_probe"] = lp
